@@ -6,32 +6,7 @@ import json, os, subprocess, sys
 
 ROOT = "/verif"
 
-# id -> (technique, claim text, level note, design ref)
-CLAIMS = {
-    "C10": ("SSA must-pass-through / error-gated dominance (go/ssa dataflow) + error-result consumption",
-            "Decides, on every path of the listed functions, that each durability point (dir sync after WAL creation, provider sync before a table is named in the MANIFEST, sync before close, MANIFEST protocol, OPTIONS write protocol) precedes — via its nil-error edge — the acknowledgement that depends on it, and that errors of durability calls are never dropped. A necessary structural condition of C10, not the crash behaviour itself.",
-            "Trusts go/types+go/ssa, the rule tables, and the file-system contract (Sync makes prior writes durable). Path feasibility is not decided; declared bypass guards are listed per instance in DESIGN.md.",
-            "DESIGN.md §4 C10"),
-}
-
-NOTE = "Trusts go/types + go/ssa (x/tools v0.29.0), the rule tables in /verif/checker/cmd/pebblevet/rules_*.go and the listed contracts of callees outside the rule (e.g. Sync makes prior writes durable). Path feasibility is not decided: declared bypass guards are explicit per instance (DESIGN.md §4). Decides a structural NECESSARY condition, not the behaviour."
-CLAIMS.update({
-    "C18": ("SSA must-facts dataflow with iteration-local and derived facts (validation gates) + table agreement",
-            "In record.Reader.nextChunk a chunk is handed out only after its CRC — and for recyclable/WAL-sync formats its log number — matched for the chunk at the current position, and every invalid-chunk sentinel return records the invalid offset first (needed for corruption confirmation). Necessary structural clauses of C18; byte-level round trip for all sizes is value-level and not decided.",
-            NOTE, "DESIGN.md §4 C18"),
-    "C19": ("SSA obligation-as-fact dataflow (tolerated-error classification), who-may-write",
-            "In every WAL-reading loop (wal.virtualWALReader.nextRecord, wal.Copy, DB.replayWAL) a read error lets the loop continue / switch segment / process a record / return success only on edges that classified it as io.EOF or ErrUnexpectedEOF (non-strict tail); confirmed-corruption sentinels must be returned. Reader.Next/Read route both sentinels through read-ahead; read-ahead reports a benign tail only at EOF and confirms corruption only from a CRC-valid chunk with a larger synced offset; syncedOffset advances only after a successful sync.",
-            NOTE, "DESIGN.md §4 C19"),
-    "C20": ("SSA must-facts dataflow (sticky-error gating, ordering), error-result consumption, who-may-call",
-            "In record.LogWriter: the waiter snapshot precedes the written-offset read that bounds the flushed data; in flushPending every block write, the tail write and the fsync run only while the accumulated error is nil and waiters are popped only after the fsync decision, with the accumulated error; a waiter's error slot is stored before its WaitGroup is released; Close syncs before closing; only the flush loop pops waiters; errors of the write/sync callees are never dropped.",
-            NOTE, "DESIGN.md §4 C20"),
-    "C22": ("SSA error-gated dominance with callee/closure summaries, lock region, who-may-call/write",
-            "MANIFEST write protocol on every path of UpdateVersionLocked / initNewDB / createManifest: create ⊢ dir sync; Next ⊢ Encode ⊢ Flush ⊢ file Sync ⊢ marker Move ≺ success; the new version and the manifest bookkeeping are installed only through the nil-error edge of that I/O; I/O failure is fatal; the protocol runs under the manifest lock; only the owner functions install versions or move the marker.",
-            NOTE, "DESIGN.md §4 C22"),
-    "C24": ("SSA error-gated dominance + value provenance (go/ssa)",
-            "atomicfs.Marker.Move: iteration bumped before the new name is formed; Create ⊢ Sync ⊢ Close ≺ removal of the previous marker; directory sync gates success; a.filename is updated only on Create's success; the file removed is the marker that was current before the move; scanForMarker replaces its candidate only by a strictly higher iteration.",
-            NOTE, "DESIGN.md §4 C24"),
-})
+NOTE = "Trusts go/types + go/ssa (x/tools v0.29.0), the rule tables in /verif/checker/cmd/pebblevet/rules_*.go and the contracts of callees outside the rule (e.g. Sync makes prior writes durable). Path feasibility is not decided: declared bypass guards are explicit per instance (DESIGN.md section 4). Decides a structural NECESSARY condition of the property, not the behaviour itself."
 
 NOT_APPLICABLE = {
     "C02": "Iterator positioning is a function of runtime keys/bounds and the iterPos state machine; no clause is visible in the shape of the code without re-deriving the algorithm (value-level).",
@@ -55,6 +30,9 @@ PENDING_REASON = "check not built yet in this round; planned in DESIGN.md §4 (n
 def main():
     props = [json.loads(l)["id"] for l in open(os.path.join(ROOT, "properties.jsonl"))]
     reg = subprocess.run([os.path.join(ROOT, "bin/pebblevet"), "-list"], capture_output=True, text=True).stdout.split()
+    expl = json.loads(subprocess.run([os.path.join(ROOT, "bin/pebblevet"), "-explain"], capture_output=True, text=True).stdout)
+    CLAIMS = {pid: (expl[pid]["technique"] or "repository-specific static analysis over go/ssa", expl[pid]["explanation"], NOTE, "DESIGN.md section 4 " + pid)
+              for pid in expl if expl[pid]["explanation"]}
     checks = []
     na = []
     for pid in props:
